@@ -298,7 +298,19 @@ def r2(fx, chk):
         f = fx.impl_fn("FourCC", tr, "fmt")
         if f is None:
             continue
-        lossy = [n for n, _ in hirq.walk(hirq.body_root(f)) if n.get("k") in ("call", "mcall") and (n.get("fn") or "").endswith("from_utf8_lossy")]
+        # the text form is computed by fmt and by the local functions it reaches (a `printable()` helper is part of it)
+        from callgraph import callgraph as _cg
+        roots_ = [hirq.body_root(fx.fns[g_]) for g_ in _cg(fx).closure([f["id"]]) if g_ in fx.fns and not fx.fns[g_].get("derived") and fx.fns[g_].get("hir")]
+        roots_ = [r_ for r_ in roots_ if r_ is not None]
+        lossy = [n for r_ in roots_ for n, _ in hirq.walk(r_) if n.get("k") in ("call", "mcall") and (n.get("fn") or "").endswith("from_utf8_lossy")]
+        REWRITE = ("replace", "replacen", "replace_range", "escape_default", "escape_debug", "escape_unicode", "escape_ascii", "trim", "trim_start", "trim_end", "trim_matches",
+                   "to_uppercase", "to_lowercase", "to_ascii_uppercase", "to_ascii_lowercase", "make_ascii_uppercase", "make_ascii_lowercase", "filter", "filter_map", "retain",
+                   "is_control", "is_ascii_control", "is_ascii_graphic", "is_alphanumeric", "is_ascii_alphanumeric", "is_ascii_punctuation", "is_whitespace", "truncate", "take", "skip")
+        rewrite = sorted({(n.get("m") or last(n.get("resolved") or n.get("fn") or "")) for r_ in roots_ for n, _ in hirq.walk(r_)
+                          if (n.get("k") in ("call", "mcall") and (n.get("m") or last(n.get("resolved") or n.get("fn") or "")) in REWRITE)
+                          or (n.get("k") == "path" and n.get("res") != "local" and last(n.get("def") or "") in REWRITE)} - {None, ""})
+        chk.require(not rewrite, "R2", "text-rewrite|%s" % tr, "the rendering applies no character-level rewriting",
+                    "%s for FourCC rewrites, drops or classifies characters of the code (%s): distinct codes can print alike and to_string()/parse() is no longer the identity on them" % (tr, ", ".join(rewrite)), site_of(f))
         chk.require(not lossy, "R2", "text-lossy|%s" % tr, "no lossy conversion",
                     "%s for FourCC renders the bytes with String::from_utf8_lossy: codes with a byte >= 0x80 (e.g. 0xA9 'nam') do not survive to_string()/parse()" % tr, site_of(f))
 
